@@ -934,6 +934,16 @@ def compare_chunk(args):
                     report(viol, "c01:optional-differs:%s" % kinds,
                            "get_nodes(%r, mustexist=False): implementation %s, model %s" % (text, oe or o_addrs, mo_err or mo_addrs),
                            dict(case, impl=opt, model=m_opt, prop="C01"))
+        elif opts.get("opt_create"):
+            # C15: the optional query would have to CREATE nodes (C09 models that); here only the type of an exception that
+            # escapes it is judged, on a fresh copy of the document
+            opt, _od, _ot = run_query(doc, text, "opt")
+            stats["queries"] += 1
+            stats["opt_creating"] = stats.get("opt_creating", 0) + 1
+            oe = opt.get("err")
+            if oe is not None and oe != "ypath":
+                report(viol, "optcreate:crash:%s@%s" % (oe.split(":", 1)[-1], opt.get("site")),
+                       "optional (creating) query %r raised %s" % (text, oe), dict(case, query="opt", impl=opt, prop="C15"))
         if impl_err is None and impl_addrs:
             stats["nonempty"] += 1
             nontrivial.add(hash((json.dumps(doc, sort_keys=True), text)))
